@@ -243,7 +243,22 @@ func observePool(p *engine.GenginePool, h *recHost, universe []string) (after, q
 }
 
 func runCompileCase(c *compileCase) {
-	lex, parse, lis, names, sals := builder.VerifFrontEnd(c.Text)
+	var lex, parse, lis, names []string
+	var sals []int64
+	func() {
+		// a front end that panics is a finding of the entry points below (compiling is total), not
+		// a reason to lose the case: record it as a listener error and go on
+		defer func() {
+			if p := recover(); p != nil {
+				msg := fmt.Sprint(p)
+				if len(msg) > 160 {
+					msg = msg[:160]
+				}
+				lis = append(lis, "front end panicked: "+msg)
+			}
+		}()
+		lex, parse, lis, names, sals = builder.VerifFrontEnd(c.Text)
+	}()
 	c.Front.Blank = strings.TrimSpace(c.Text) == ""
 	c.Front.Lex, c.Front.Parse, c.Front.Listener = lex, parse, lis
 	for k, n := range names {
